@@ -233,10 +233,9 @@ func runCheck(repo, prop, tier string, opt Options, verbose bool) int {
 			sp := strings.TrimSuffix(path, ".json") + ".smt2"
 			os.WriteFile(sp, []byte(o.Script), 0o644)
 			rep["smt_script"] = sp
-			confirmed := false
-			if o.Status == "refuted" {
-				confirmed = tryReplay(w, fn, ob, o, rep)
-			}
+			// look for a concrete failing pre-state on the real code (executable contract over the bounded domain),
+			// whether the solver refuted the obligation or left it undecided
+			confirmed := tryReplay(w, fn, ob, o, rep)
 			if !confirmed {
 				suffix = " no-failing-input-found"
 			}
@@ -248,6 +247,14 @@ func runCheck(repo, prop, tier string, opt Options, verbose bool) int {
 		fmt.Printf("VIOLATION property=%s replay=%s%s\n", prop, path, suffix)
 	}
 	// every implementation (inside the repository) of an interface method with a type contract needs a contract
+	violationReplay := func(fn, ob string, f Failure, reason string) {
+		violations++
+		path := filepath.Join(outDir(), "replays", prop, sanitize(fn+"_"+ob)+".json")
+		rep := map[string]interface{}{"property": prop, "function": fn, "obligation": ob, "reason": reason, "replay": f, "replay_cmd": "/verif/bin/xvc bounded " + fn}
+		b, _ := json.MarshalIndent(rep, "", " ")
+		os.WriteFile(path, b, 0o644)
+		fmt.Printf("VIOLATION property=%s replay=%s\n", prop, path)
+	}
 	for _, mk := range sortedKeys(ifaceSlots) {
 		slot := w.Contracts[ifaceSlots[mk]]
 		if slot == nil || !hasProp(slot.Props, prop) {
@@ -289,13 +296,67 @@ func runCheck(repo, prop, tier string, opt Options, verbose bool) int {
 				knownRefuted = append(knownRefuted, r.Key+"/*")
 				continue
 			}
+			// The obligations of this function cannot be generated on this tree (outside the subset, or its loop
+			// contracts no longer fit). That is not a proof failure: the same executable contract is run against the
+			// real function over the bounded domain instead; it stands in, labelled bounded, never counted as proved.
+			if !r.Vacuous && con != nil && loopContractProblem(r.Err) {
+				if fb := w.boundedStandIn(r.Key, con, prop); fb != nil {
+					if len(fb.Fails) > 0 {
+						total++
+						f := fb.Fails[0]
+						ob := "ensures[" + f.Clause + "]"
+						if f.Kind == "panic" {
+							ob = "safe:panic"
+						}
+						violationReplay(r.Key, ob, f, "the function cannot be verified deductively on this tree ("+r.Err+"); its executable contract fails on the real code")
+						continue
+					}
+					fmt.Printf("BOUNDED: property=%s %s: not verifiable deductively on this tree (%s); executable contract (%d clauses) held on %d runs over the bounded domain\n", prop, r.Key, r.Err, fb.nClauses, fb.Runs)
+					bounded = append(bounded, fmt.Sprintf("%s: %d runs of the executable contract (clauses %s) over the domain of harness/%s_states.go.txt; reason: %s", r.Key, fb.Runs, strings.Join(fb.Labels, ","), con.Pkg, r.Err))
+					continue
+				}
+			}
 			total++
 			violation(r.Key, "all-obligations", nil, "the obligations of this function could not be generated or discharged: "+r.Err)
 			continue
 		}
 		fnsUnder = append(fnsUnder, r.Key)
+		// a contract that lost clauses (they no longer type-check) cannot carry a proof of its function: what is left
+		// undischarged is handed to the bounded executable stand-in
+		degradedOK := false
+		if con != nil && len(con.Dropped) > 0 {
+			unproved := false
+			for _, o := range r.Obs {
+				if o.Status != "proved" {
+					unproved = true
+				}
+			}
+			if unproved {
+				if fb := w.boundedStandIn(r.Key, con, prop); fb != nil && len(fb.Fails) == 0 {
+					degradedOK = true
+					why := con.Dropped[0].Why
+					fmt.Printf("BOUNDED: property=%s %s: %d clause(s) of its contract no longer fit the code (%s); executable contract (%d clauses) held on %d runs over the bounded domain\n", prop, r.Key, len(con.Dropped), why, fb.nClauses, fb.Runs)
+					bounded = append(bounded, fmt.Sprintf("%s: %d runs of the executable contract (clauses %s); reason: loop/trace clauses no longer type-check (%s)", r.Key, fb.Runs, strings.Join(fb.Labels, ","), why))
+				} else if fb != nil && len(fb.Fails) > 0 {
+					total++
+					f := fb.Fails[0]
+					violationReplay(r.Key, "ensures["+f.Clause+"]", f, "part of the contract no longer fits the code and the executable contract fails on the real code")
+					continue
+				}
+			}
+		}
 		for _, o := range r.Obs {
-			if con != nil && !hasProp(obligationProps(con, o.Name), prop) {
+			ops := []string(nil)
+			if con != nil {
+				ops = obligationProps(con, o.Name)
+			}
+			if len(o.Props) > 0 {
+				ops = o.Props
+			}
+			if con != nil && !hasProp(ops, prop) {
+				continue
+			}
+			if degradedOK && o.Status != "proved" {
 				continue
 			}
 			solverTime[o.Solver] += o.TimeMS
@@ -369,6 +430,48 @@ func trustedBase() []string {
 		"slice values have value semantics (backing-array aliasing not modelled)",
 		"trusted contracts for strings.Builder (write history), strings.TrimRight/TrimSpace/Split/Join/Repeat, fmt.Sprintf/Errorf, strconv.ParseInt/ParseFloat, maps.Copy, slices.Contains, append",
 	}
+}
+
+// loopContractProblem: the function could not be verified because its loop structure no longer matches its loop
+// contracts (a loop was added, split off into a helper, or its invariant mentions locals that were renamed) -- as
+// opposed to code the engine has no semantics for, which stays a hard failure.
+func loopContractProblem(msg string) bool {
+	for _, k := range []string{"has no loop contract", "loop in inlined function", "neither invariant nor unroll", "contract names loop"} {
+		if strings.Contains(msg, k) {
+			return true
+		}
+	}
+	return false
+}
+
+type standIn struct {
+	*boundedResult
+	nClauses int
+}
+
+// boundedStandIn runs the executable contract of fn over the bounded domain. nil if there is no harness for it or if
+// none of its executable clauses serves the property (then nothing would be checked at all).
+func (w *World) boundedStandIn(fn string, con *Contract, prop string) *standIn {
+	harnessMu.Lock()
+	r := harnessCache[fn]
+	if r == nil {
+		r = w.boundedRun(con.Pkg, []string{fn}, fn)
+		harnessCache[fn] = r
+	}
+	harnessMu.Unlock()
+	if r.Err != "" || r.Runs == 0 {
+		return nil
+	}
+	n := 0
+	for _, lab := range r.Labels {
+		if hasProp(obligationProps(con, "ensures["+lab+"]"), prop) {
+			n++
+		}
+	}
+	if n == 0 {
+		return nil
+	}
+	return &standIn{r, n}
 }
 
 // tryReplay is set up in replay.go
